@@ -44,11 +44,18 @@ type Program struct {
 	Language   string                 `json:"language"`
 	MaxLevel   int                    `json:"maxlevel"`
 	LangSens   bool                   `json:"langsens"` // external results and templates depend on the context language (as translated content does)
+	Engine     EngineOpts             `json:"engine"`   // engine options of the application
 	Nodes      map[string][]Instr     `json:"nodes"`
 	Templates  map[string]string      `json:"templates"`
 	Syms       map[string][]SymResult `json:"syms"`
 	Inputs     []string               `json:"inputs"`
 	code       map[string][]byte
+}
+
+// EngineOpts: engine.DefaultEngine.WithFirst (the function is the symbol "_first" of Syms) and engine.Config.ResetOnEmptyInput
+type EngineOpts struct {
+	First  bool `json:"first"`
+	Rempty bool `json:"rempty"`
 }
 
 var opcodes = map[string]uint16{"NOOP": 0, "CATCH": 1, "CROAK": 2, "LOAD": 3, "RELOAD": 4, "MAP": 5, "MOVE": 6, "HALT": 7, "INCMP": 8, "MSINK": 9, "MOUT": 10, "MNEXT": 11, "MPREV": 12}
